@@ -765,8 +765,15 @@ def _g_instance(draw, depth=0, with_path=None, strings=None, allow_nan=True,
         # real instance has equal values there)
         pnames = set(pr['name'].lower() for pr in props)
         keys = []
+        # (in one of four instances a collision is kept: build() assigns the
+        # path after the properties, so nothing is propagated, and path key
+        # and property legitimately differ - e.g. a locally modified
+        # instance that still carries the path it was retrieved with)
+        keep = draw(_I10) < 3 and not any(
+            pr['embedded_object'] or pr['is_array'] or pr['value'] is None
+            or pr['type'] == 'reference' for pr in props)
         for n, kt, v in p['keys']:
-            while n.lower() in pnames:
+            while n.lower() in pnames and not keep:
                 n = 'k_' + n
             pnames.add(n.lower())
             keys.append((n, kt, v))
@@ -868,9 +875,14 @@ def build(r):
             class_origin=r['class_origin'], propagated=r['propagated'],
             qualifiers=_build_quals(r['qualifiers']))
     if k == 'inst':
-        return CIMInstance(
+        inst = CIMInstance(
             r['classname'], properties=[build(p) for p in r['properties']],
-            qualifiers=_build_quals(r['qualifiers']), path=build(r['path']))
+            qualifiers=_build_quals(r['qualifiers']))
+        # the path is assigned afterwards, so that pywbem's (deprecated)
+        # propagation of property values into same-named keybindings does
+        # not change the path the recipe asked for
+        inst.path = build(r['path'])
+        return inst
     if k == 'class':
         return CIMClass(
             r['classname'], properties=[build(p) for p in r['properties']],
